@@ -99,7 +99,7 @@ def evo_text(ev):
     return "'%s+%s*t'" % (fmt_v(ev[1]), repr(ev[2] * TU / VUNIT))
 
 
-def mtest_input(lib, hyp, pol, load, times, maxsub, dyn, mindt, accel):
+def mtest_input(lib, hyp, pol, load, times, maxsub, dyn, mindt, accel, maxdt=0):
     L = ["@Author vf;", "@ModellingHypothesis '%s';" % hyp, "@Behaviour<generic> '%s' 'VfMTProbe';" % lib,
          "@MaterialProperty<constant> 'young' 128.;", "@MaterialProperty<constant> 'hard' 8.;",
          "@ExternalStateVariable 'Temperature' 293.15;", "@ExternalStateVariable<function> 'tt' 't';",
@@ -114,6 +114,8 @@ def mtest_input(lib, hyp, pol, load, times, maxsub, dyn, mindt, accel):
         L.append("@DynamicTimeStepScaling true;")
     if mindt > 0:
         L.append("@MinimalTimeStep %s;" % fmt_t(mindt))
+    if maxdt > 0:
+        L.append("@MaximalTimeStep %s;" % fmt_t(maxdt))
     if accel:
         L.append("@AccelerationAlgorithm '%s';" % accel)
     L += ["@OutputFrequency 'EveryPeriod';", "@PrintLagrangeMultipliers true;", "@OutputFilePrecision 17;"]
@@ -189,7 +191,7 @@ def run_case(ctx, lib, i, case, env):
     dyn = bool(c["dyn"])
     plan = plan_of(case["hist"], dyn)
     # run A: the behaviour of the model, with its faults
-    open(os.path.join(d, "a.mtest"), "w").write(mtest_input(lib, hyp, pol, load, c["times"], c["maxsub"], dyn, c["mindt"], accel))
+    open(os.path.join(d, "a.mtest"), "w").write(mtest_input(lib, hyp, pol, load, c["times"], c["maxsub"], dyn, c["mindt"], accel, c.get("maxdt", 0)))
     ea = dict(env, VF_PROBE_LOG=os.path.join(d, "a.log"), VF_PLAN=plan)
     ra = core.sh(["timeout", "-s", "KILL", "60", "mtest", "--verbose=quiet", "a.mtest"], env=ea, cwd=d, timeout=90)
     la = core.read_ndjson(os.path.join(d, "a.log")) if os.path.exists(os.path.join(d, "a.log")) else []
@@ -200,14 +202,14 @@ def run_case(ctx, lib, i, case, env):
     bt = ([accepted[0][0] // CODE] + [(t + dt) // CODE for t, dt in accepted]) if accepted and ongrid else None
     rb = None
     if bt and len(bt) >= 2 and all(x < y for x, y in zip(bt, bt[1:])):
-        open(os.path.join(d, "b.mtest"), "w").write(mtest_input(lib, hyp, pol, load, bt, 1, dyn, c["mindt"], accel))
+        open(os.path.join(d, "b.mtest"), "w").write(mtest_input(lib, hyp, pol, load, bt, 1, dyn, c["mindt"], accel))   # no @MaximalTimeStep: the steps are given
         eb = dict(env, VF_PROBE_LOG=os.path.join(d, "b.log"), VF_PLAN="")
         rb = core.sh(["timeout", "-s", "KILL", "60", "mtest", "--verbose=quiet", "b.mtest"], env=eb, cwd=d, timeout=90)
     lb = core.read_ndjson(os.path.join(d, "b.log")) if os.path.exists(os.path.join(d, "b.log")) else []
     (rowsA, colsA), (rowsB, _) = read_rows(os.path.join(d, "a.res")), read_rows(os.path.join(d, "b.res"))
     refatt = {a["key"]: a for a in attempts_of(lb)}
     refrow = {r[0]: r for r in rowsB}
-    ev = [{"e": "Run", "times": c["times"], "maxsub": c["maxsub"], "dyn": 1 if dyn else 0, "mindt": c["mindt"],
+    ev = [{"e": "Run", "times": c["times"], "maxsub": c["maxsub"], "dyn": 1 if dyn else 0, "mindt": c["mindt"], "maxdt": c.get("maxdt", 0),
            "evo": [[l[2][0], l[2][1]] if l[2][0] == "lpi" else ["fn", l[2][1], l[2][2]] for l in load], "case": i}]
     # merge: the first row, then the attempts, an accepted attempt being followed by its row
     nrow = 0
